@@ -24,6 +24,9 @@ pub fn inputs() -> Vec<V> {
         pair(sym("k"), V::Int(3)),
         V::List(vec![V::Int(1), V::Int(2), V::Int(3)]),
         V::List(vec![pair(sym("j"), V::Int(9)), V::Int(5), pair(sym("k"), text("ab"))]),
+        // concatenations as input (what a partially applied expression runs with): associations nested to the right, and lists
+        V::Concat(Box::new(pair(sym("k"), V::Int(3))), Box::new(V::Concat(Box::new(pair(sym("j"), V::Int(9))), Box::new(pair(sym("i"), V::Int(1)))))),
+        V::Concat(Box::new(V::List(vec![pair(sym("k"), V::Int(3)), V::Int(5)])), Box::new(V::List(vec![pair(sym("j"), V::List(vec![V::Int(1), V::Int(2)])), V::Int(6)]))),
     ]
 }
 
@@ -379,15 +382,15 @@ impl Check for C01Check {
                 ctx.class("exhaustive");
                 if ast.size() <= 3 {
                     // small programs: every input value (pair, scalar, text, plain and mixed lists too)
-                    self.judge_ast(&ast, &[0, 1, 2, 3, 4, 5, 6], &[Layout::Spaced], ctx);
+                    self.judge_ast(&ast, &[0, 1, 2, 3, 4, 5, 6, 7, 8], &[Layout::Spaced], ctx);
                 } else {
                     self.judge_ast(&ast, &[0, 1], &[Layout::Spaced], ctx);
                 }
             }
             (1, Input::Tape(t)) => {
                 let mut t = Tape::new(t);
-                let a = t.choose(7);
-                let b = t.choose(7);
+                let a = t.choose(inputs().len());
+                let b = t.choose(inputs().len());
                 let ast = astgen::random_ast(&mut t, 6);
                 ctx.class("random");
                 self.judge_ast(&ast, &[0, a, b], &[Layout::Spaced, Layout::Tight], ctx);
@@ -422,8 +425,8 @@ impl Check for C01Check {
             (0, Input::Index(i)) => astgen::unrank(*i, tier.pick(4, 5)),
             (1, Input::Tape(t)) => {
                 let mut t = Tape::new(t);
-                t.choose(7);
-                t.choose(7);
+                t.choose(inputs().len());
+                t.choose(inputs().len());
                 Some(astgen::random_ast(&mut t, 6))
             }
             (2, Input::Index(i)) => astgen::CONTROL.unrank(*i, tier.pick(8, 9)),
